@@ -177,6 +177,15 @@ def check(plan, ctx):
     tl = ctx.call("tolist", v.tolist)
     if [x is None for x in tl] != exp_na:
         raise Violation("tolist does not return None at exactly the missing positions", dtype=str(v.dtype), tolist=tl)
+    if present == ["date", "dtime"]:
+        # nothing can hold both without loss except object: every value must come back as it went in
+        for j, it in enumerate(items):
+            if exp_na[j]:
+                continue
+            want = mk(it[0], "py", it[2])
+            if tl[j] != want or type(tl[j]) is not type(want):
+                raise Violation("mixed date / datetime input: tolist does not return the original value", index=j,
+                                got=repr(tl[j]), want=repr(want), dtype=str(v.dtype))
     if present:
         ctx.cls("kinds_" + "+".join(present))
     elif n:
